@@ -153,7 +153,10 @@ class ResendSim(PeerSim):
     def enabled_actions(self):
         out = self.net_enabled()
         cfg = self.cfg
-        if not self.peer.connected or not self.session_up():
+        if not self.peer.connected:
+            return out
+        if not self.session_up() and not (
+                self.rr_busy and self.eut.connection_state == ConnectionState.RESENDREQ_HANDLING):
             return out
         if self.rr_busy:
             # a request is being served: the only stimulus that may overlap its window is an application
@@ -300,7 +303,32 @@ class ResendSim(PeerSim):
             return
         b, e = snap["ent"]["spec"]["rr"]
         J = snap["journal"]
-        L = snap["live_out"] - 1
+        L0 = snap["live_out"] - 1  # last number sent when the request arrived
+        # what the endpoint itself sent before it began to replay (while the RESENDREQ_HANDLING state hook was
+        # running) is "already sent" for this request: the range is judged against the last number sent when
+        # the replay started
+        start_ev = None
+        n_state = 0
+        if snap["state"] != ConnectionState.ACTIVE:
+            start_ev = snap["ev0"]  # no state hook runs before the replay when the endpoint awaits a resend itself
+        for h in self.hist[snap["ev0"]:]:
+            if start_ev is not None or h[0] > ev_end:
+                break
+            if h[1] == "state" and h[2] == "E":
+                n_state += 1
+                if n_state >= 2:  # back from RESENDREQ_HANDLING: the (possibly empty) replay is over
+                    start_ev = h[0]
+            elif h[1] == "should_replay" or (h[1] == "write" and h[2] == "E" and (
+                    b"\x0143=Y\x01" in h[4] or b"\x0135=4\x01" in h[4])):
+                start_ev = h[0]
+        before = []
+        for (ev, cid, d, fr, dropped) in self.eut_writes():
+            if snap["ev0"] < ev <= ev_end and (start_ev is None or ev < start_ev) and d.get("35") != "4" \
+                    and d.get("43") != "Y" and d.get("34", "").isdigit() and int(d["34"]) > L0:
+                before.append(int(d["34"]))
+        L = max([L0] + before)
+        if before:
+            self.probe("new_message_sent_before_the_replay_started")
         numeric = isinstance(b, int) and isinstance(e, int)
         shown = (b, e)
         if not numeric:
@@ -331,7 +359,7 @@ class ResendSim(PeerSim):
         chain = [(d, fr) for d, fr in replies if d.get("35") != "2"]
         J_after = self.journal_out()
         new_during = [int(d.get("34")) for d, fr in chain
-                      if d.get("35") != "4" and d.get("43") != "Y" and d.get("34", "").isdigit() and int(d.get("34")) > L]
+                      if d.get("35") != "4" and d.get("43") != "Y" and d.get("34", "").isdigit() and int(d.get("34")) > L0]
         if new_during:
             self.probe("new_message_sent_while_a_request_was_being_served", len(new_during))
         # 1. the reply chain
@@ -340,7 +368,7 @@ class ResendSim(PeerSim):
         for d, fr in chain:
             t = d.get("35")
             n = int(d.get("34", "0"))
-            if t != "4" and d.get("43") != "Y" and n > L:
+            if t != "4" and d.get("43") != "Y" and n > L0:
                 continue  # a new message the application sent meanwhile, not part of the reply
             if not valid:
                 bad("reply-to-invalid-request", f"invalid range answered with 35={t} 34={n}")
@@ -355,7 +383,7 @@ class ResendSim(PeerSim):
                 pos = m
             else:
                 if d.get("43") != "Y":
-                    if n > L:
+                    if n > L0:
                         # a new message sent concurrently is not part of the reply
                         continue
                     bad("retransmission-without-possdup", f"frame 35={t} 34={n} lacks PossDupFlag=Y")
@@ -365,7 +393,7 @@ class ResendSim(PeerSim):
                     bad("reply-beyond-range", f"retransmission 34={n} past requested end {end}")
                 if t in SESSION_TYPES:
                     bad("session-message-retransmitted", f"35={t} 34={n} retransmitted")
-                orig = J.get(n) or (J_after.get(n) if n > L else None)
+                orig = J.get(n) or (J_after.get(n) if n > L0 else None)
                 if orig is None:
                     bad("retransmitted-unknown", f"34={n} retransmitted but not in the journal")
                 od = refframer.fdict(orig)
